@@ -43,7 +43,7 @@ type scenario struct {
 	Present []string              `json:"present"`
 	Fault   map[string]string     `json:"fault"`
 	Filler  int                   `json:"filler"`
-	Pred    map[string]prediction `json:"pred"` // "aswritten", "repaired"
+	Pred    map[string]prediction `json:"pred"` // "current"
 }
 
 type observation struct {
@@ -83,8 +83,7 @@ type result struct {
 	Violations  []finding      `json:"violations"`
 	Drift       []finding      `json:"drift"`
 	Samples     []witness      `json:"samples"`
-	MatchAsW    int            `json:"matched_aswritten"`
-	MatchRep    int            `json:"matched_repaired"`
+	MatchCur    int            `json:"matched_model"`
 	Infra       string         `json:"infra,omitempty"`
 	FilesCopied int            `json:"files_copied"`
 }
@@ -455,8 +454,7 @@ func matches(o observation, p prediction) bool {
 		if !eqSet(o.Stored, p.Stored) || int(o.MSkipped) != p.MSkipped {
 			return false
 		}
-		// which files a *failed* restore still brought back is not part of the prediction
-		if p.RStatus == "completed" && !eqSet(o.Restored, p.Restored) {
+		if !eqSet(o.Restored, p.Restored) {
 			return false
 		}
 	}
@@ -603,15 +601,10 @@ func main() {
 					add("backup-completed-silently-omits-readable-file:"+kind, "omitted: "+strings.Join(dropped, ","))
 				}
 			}
-			// drift: the outcome is the one Backup.tla predicts (as written, or repaired)
-			mA, mR := matches(o, sc.Pred["aswritten"]), matches(o, sc.Pred["repaired"])
-			if mA {
-				res.MatchAsW++
-			}
-			if mR {
-				res.MatchRep++
-			}
-			if !mA && !mR && len(res.Drift) < 5 {
+			// drift: the outcome is the one Backup.tla (the code as it is now) predicts
+			if matches(o, sc.Pred["current"]) {
+				res.MatchCur++
+			} else if len(res.Drift) < 5 {
 				res.Drift = append(res.Drift, finding{Signature: "outcome-differs-from-Backup.tla", Witness: w})
 			}
 			// accounting
